@@ -378,6 +378,49 @@ def run(ck):
         scale_event("simplify:bv_op_over_ite_chain", len(order), len(cnt.calls) if res == "ok" else 0, res, K=1, slack=8)
     else:
         scale_event("construct:bv_op_over_ite_chain", 1, 0, res)
+    # construction interleaved with REJECTED constructions (ill-typed applications raise): the type checker's
+    # knowledge of the existing sub-formulas must survive a rejection, so the total type-checking work stays
+    # linear in the nodes built (rejected nodes included)
+    for fam_name in ("int", "bool", "bv"):
+        pysmt.environment.reset_env()
+        env = pysmt.environment.get_env()
+        c_stc = Counter(env.stc)
+        m = env.formula_manager
+        leaf, un, bi = families(env)[fam_name]
+        pb, xi = m.Symbol("pp", BOOL), m.Symbol("xx", INT)
+        box, rej = [], [0]
+
+        def build_rej():
+            cur = leaf(0)
+            for k in range(depth_chain if not quick else 6000):
+                cur = un(cur)
+                if k % 10 == 0:
+                    try:
+                        m.And(cur, xi) if fam_name == "bool" else m.And(pb, cur)     # ill-typed: rejected
+                    except Exception:
+                        rej[0] += 1
+            box.append(cur)
+        res = timed(build_rej, 120)
+        if box:
+            order, idx, kids = real_dag(box[0])
+            scale_event("construct_with_rejections:%s/chain" % fam_name, len(order) + rej[0], len(c_stc.calls), res, K=2, slack=16)
+        else:
+            scale_event("construct_with_rejections:%s/chain" % fam_name, 1, 0, res)
+    # re-parsing a deep let-DAG of Real arithmetic written with integer literals (the parser retries such
+    # applications after a type error)
+    pysmt.environment.reset_env()
+    env = pysmt.environment.get_env()
+    c_stc = Counter(env.stc)
+    nlev = 1500 if quick else 6000
+    text = "(declare-fun r0 () Real)(assert (let ((d0 (+ r0 1)))" + "".join(
+        "(let ((d%d (+ d%d (* 2 d%d))))" % (k, k - 1, k - 1) for k in range(1, nlev)) + "(< d%d 3)" % (nlev - 1) + ")" * (nlev + 1)
+    got = []
+    res = timed(lambda: got.append(SmtLibParser(env).get_script(io.StringIO(text)).commands[-1].args[0]), 120)
+    if got:
+        order, idx, kids = real_dag(got[0])
+        scale_event("smtlib_parse_int_literals_over_reals", len(order), len(c_stc.calls), res, K=4, slack=16)
+    else:
+        scale_event("smtlib_parse_int_literals_over_reals", 1, 0, res)
     sys.setrecursionlimit(old_limit)
     verdicts, st = tlc.validate_events("Trace_Pure", evs, constants={"Seed": 0, "Cap": 8})
     ck.add_tlc(st)
